@@ -41,6 +41,7 @@ def readCat (j : Json) (engine : String) : Cat :=
 
 def colJson (c : Column) : Json :=
   Json.mkObj [("name", c.name), ("dataType", c.dataType), ("notNull", c.notNull), ("isArray", c.isArray),
+    ("length", match c.length with | some l => Json.num (l : Nat) | none => Json.num (-1 : Int)),
     ("table", match c.table with
       | some t => Json.mkObj [("catalog", t.catalog), ("schema", t.schema), ("name", t.name)]
       | none => Json.null)]
